@@ -220,3 +220,98 @@ pub fn b_result_iter(x: u8, _y: u8) -> u32 { let r: Result<u8, u8> = half_u8(x);
 fn half_u8(x: u8) -> Result<u8, u8> { if x & 1 == 0 { Ok(x / 2) } else { Err(x) } }
 pub fn b_early_ret_loop(x: u8, y: u8) -> u32 { for (i, v) in TABLE.iter().enumerate() { if *v == x { return i as u32; } if *v == y { return 100 + i as u32; } } 999 }
 pub fn b_shadow_block(x: u8, y: u8) -> u32 { let v = { let t = x ^ y; if t > 128 { t - 128 } else { t } }; let v = v as u32 * 3; let w = 'b: { if x == 0 { break 'b 5u32; } if y == 0 { break 'b 6; } 7 }; v + w * 1000 }
+
+// ---- third batch: decoder-like state machines, flag words, lookup tables of enums
+#[derive(Clone, Copy, PartialEq, Eq, Debug)]
+enum St { Idle, Ext, Rel, ExtRel }
+#[derive(Clone, Copy, PartialEq, Eq, Debug)]
+#[repr(u8)]
+pub enum Key { A = 1, B = 2, C = 30, Up = 100, Down = 101 }
+struct Dec { st: St, count: u8 }
+impl Dec {
+    const fn new() -> Self { Dec { st: St::Idle, count: 0 } }
+    fn key(code: u8, ext: bool) -> Result<Key, u8> { match (code, ext) { (0x1C, false) => Ok(Key::A), (0x32, false) => Ok(Key::B), (0x21, false) => Ok(Key::C), (0x75, true) => Ok(Key::Up), (0x72, true) => Ok(Key::Down), _ => Err(code) } }
+    fn step(&mut self, b: u8) -> Result<Option<(Key, bool)>, u8> {
+        self.count = self.count.wrapping_add(1);
+        match (self.st, b) {
+            (St::Idle, 0xE0) => { self.st = St::Ext; Ok(None) }
+            (St::Idle, 0xF0) => { self.st = St::Rel; Ok(None) }
+            (St::Ext, 0xF0) => { self.st = St::ExtRel; Ok(None) }
+            (s, code) => { self.st = St::Idle; let k = Self::key(code, matches!(s, St::Ext | St::ExtRel))?; Ok(Some((k, matches!(s, St::Idle | St::Ext)))) }
+        }
+    }
+}
+fn enc(r: Result<Option<(Key, bool)>, u8>) -> u32 { match r { Ok(None) => 0, Ok(Some((k, d))) => 1 + (k as u8 as u32) * 4 + d as u32 * 2, Err(e) => 0x8000 + e as u32 } }
+const BYTES: [u8; 8] = [0xE0, 0xF0, 0x1C, 0x32, 0x21, 0x75, 0x72, 0x00];
+pub fn c_decoder2(x: u8, y: u8) -> u32 { let mut d = Dec::new(); let a = enc(d.step(BYTES[(x & 7) as usize])); let b = enc(d.step(BYTES[(y & 7) as usize])); a * 65536 + b + (d.st as u32) * 0x4000_0000 }
+pub fn c_decoder3(x: u8, y: u8) -> u32 { let mut d = Dec::new(); let _ = d.step(BYTES[(x & 7) as usize]); let _ = d.step(BYTES[((x >> 3) & 7) as usize]); enc(d.step(BYTES[(y & 7) as usize])) + d.count as u32 * 0x10_0000 }
+pub fn c_decoder_raw(x: u8, y: u8) -> u32 { let mut d = Dec::new(); let a = enc(d.step(x)); a ^ enc(d.step(y)).rotate_left(16) }
+struct Flags(u16);
+impl Flags { const SHIFT: u16 = 1; const CTRL: u16 = 2; const ALT: u16 = 4; const CAPS: u16 = 0x100;
+    fn set(&mut self, m: u16, on: bool) { if on { self.0 |= m } else { self.0 &= !m } }
+    fn toggle(&mut self, m: u16) { self.0 ^= m }
+    const fn has(&self, m: u16) -> bool { self.0 & m != 0 }
+    const fn any(&self, m: u16) -> bool { self.0 & m != 0 } }
+pub fn c_flags(x: u8, y: u8) -> u32 { let mut f = Flags(0); f.set(Flags::SHIFT, x & 1 != 0); f.set(Flags::CTRL, x & 2 != 0); f.set(Flags::ALT, y & 1 != 0); if y & 2 != 0 { f.toggle(Flags::CAPS); } if y & 4 != 0 { f.toggle(Flags::CAPS); } f.set(Flags::SHIFT, x & 4 == 0 && f.has(Flags::SHIFT)); f.0 as u32 + (f.any(Flags::SHIFT | Flags::CAPS) as u32) * 65536 + ((f.has(Flags::SHIFT) ^ f.has(Flags::CAPS)) as u32) * 131072 }
+static KEYTAB: [Option<Key>; 8] = [None, Some(Key::A), Some(Key::B), None, Some(Key::C), None, Some(Key::Up), Some(Key::Down)];
+pub fn c_opt_table(x: u8, _y: u8) -> u32 { match KEYTAB.get((x & 15) as usize) { Some(Some(k)) => *k as u32, Some(None) => 1000, None => 2000 } }
+pub fn c_opt_table_flat(x: u8, _y: u8) -> u32 { KEYTAB.get((x & 15) as usize).copied().flatten().map_or(7, |k| k as u32 + 10) }
+const GRID: [[u8; 4]; 3] = [[1, 2, 3, 4], [5, 6, 7, 8], [9, 10, 11, 12]];
+pub fn c_grid(x: u8, y: u8) -> u32 { GRID[(x % 3) as usize][(y & 3) as usize] as u32 + GRID.iter().map(|r| r[(y & 3) as usize] as u32).sum::<u32>() * 16 + GRID[(x % 3) as usize].iter().position(|v| *v == y).map_or(0, |i| i as u32 + 1) * 4096 }
+impl TryFrom<u8> for Key { type Error = u8; fn try_from(v: u8) -> Result<Self, u8> { Ok(match v { 1 => Key::A, 2 => Key::B, 30 => Key::C, 100 => Key::Up, 101 => Key::Down, other => return Err(other) }) } }
+pub fn c_try_from(x: u8, _y: u8) -> u32 { match Key::try_from(x) { Ok(k) => k as u32 * 2, Err(e) => e as u32 * 2 + 1 } }
+pub fn c_try_into(x: u8, _y: u8) -> u32 { let r: Result<Key, _> = x.try_into(); r.map_or(0, |k| k as u32) }
+struct Shift { reg: u16, n: u8 }
+impl Shift { fn push(&mut self, bit: bool) -> Option<u16> { self.reg |= (bit as u16) << self.n; self.n += 1; if self.n == 4 { let w = self.reg; self.reg = 0; self.n = 0; Some(w) } else { None } } }
+pub fn c_shift_reg(x: u8, y: u8) -> u32 { let mut s = Shift { reg: 0, n: 0 }; let mut out = 0u32; let mut got = 0u32; for i in 0..8 { if let Some(w) = s.push((x >> i) & 1 == 1) { out = out * 16 + w as u32; got += 1; } } for i in 0..3 { if let Some(w) = s.push((y >> i) & 1 == 1) { out = out * 16 + w as u32; got += 1; } } out + got * 65536 + s.n as u32 * 0x100_0000 }
+fn parity_ok(w: u16) -> bool { let mut ones = 0; let mut i = 0; while i < 9 { if (w >> (i + 1)) & 1 == 1 { ones += 1; } i += 1; } ones % 2 == 1 }
+pub fn c_frame(x: u8, y: u8) -> u32 { let w = (x as u16) << 1 | ((y as u16 & 3) << 9); let start = w & 1 == 0; let stop = w & 0x400 != 0; if !start { 1 } else if !stop { 2 } else if !parity_ok(w) { 3 } else { 100 + ((w >> 1) & 0xFF) as u32 } }
+pub fn c_ctrl_letter(x: u8, y: u8) -> u32 { let c = x as char; let ctrl = y & 1 != 0; let shift = y & 2 != 0; let caps = y & 4 != 0; if ctrl && c.is_ascii_alphabetic() { (c.to_ascii_uppercase() as u8 & 0x1F) as u32 } else if c.is_ascii_lowercase() && (shift ^ caps) { c.to_ascii_uppercase() as u32 } else if c.is_ascii_uppercase() && (shift ^ caps) { c.to_ascii_lowercase() as u32 } else { c as u32 } }
+#[derive(Clone, Copy, PartialEq, Eq)]
+enum Out { Ch(char), Raw(Key) }
+fn out_code(o: Out) -> u32 { match o { Out::Ch(c) => c as u32, Out::Raw(k) => 0x11_0000 + k as u32 } }
+macro_rules! keymap { ($k:expr, $s:expr; $($code:literal => ($lo:literal, $hi:literal)),* ; raw $($rc:literal => $rk:expr),*) => { match $k { $($code => Out::Ch(if $s { $hi } else { $lo }),)* $($rc => Out::Raw($rk),)* _ => Out::Ch('\0') } } }
+pub fn c_macro_map(x: u8, y: u8) -> u32 { out_code(keymap!(x & 31, y & 1 != 0; 0 => ('a', 'A'), 1 => ('b', 'B'), 2 => ('1', '!'), 3 => ('ö', 'Ö'), 4 => ('ß', '?') ; raw 10 => Key::Up, 11 => Key::Down)) }
+const LETTERS: [(u8, char, char); 5] = [(3, 'q', 'Q'), (5, 'w', 'W'), (9, 'é', 'É'), (12, 'ñ', 'Ñ'), (20, 'z', 'Z')];
+pub fn c_letter_table(x: u8, y: u8) -> u32 { if let Some(&(_, lo, up)) = LETTERS.iter().find(|(c, _, _)| *c == x & 31) { (if y & 1 != 0 { up } else { lo }) as u32 } else { 0 } }
+pub fn c_char_arith(x: u8, y: u8) -> u32 { let n = x % 26; let base = if y & 1 != 0 { b'A' } else { b'a' }; ((base + n) as char) as u32 + (((b'a' + n) as char).to_ascii_uppercase() as u32) * 256 + (char::from(b'0' + x % 10) as u32) * 65536 }
+pub fn c_sym_loop(x: u8, y: u8) -> u32 { let n = x & 7; let mut s = 0u32; for i in 0..n { s += (i as u32 + 1) * (y as u32 & 3); } let mut k = y & 7; while k > 0 { s += 1000; k -= 1; } s }
+pub fn c_u16_reg(x: u8, y: u8) -> u32 { let mut r: u16 = 0; for i in 0..8u16 { r |= (((x >> i) & 1) as u16) << (i + 1); } r |= ((y & 1) as u16) << 9; r |= 1 << 10; let data = ((r >> 1) & 0xFF) as u8; (data == x) as u32 + (r as u32) * 2 + (r.count_ones() & 1) * 0x10000 }
+
+// ---- fourth batch: generic structs over traits (Keyboard<L, S>-like), blanket impls for references
+pub trait Stage { fn apply(&mut self, v: u8) -> u8; fn name_len(&self) -> u8 { 1 } }
+struct AddN(u8); struct XorAcc { acc: u8 } struct Both<A, B>(A, B);
+impl Stage for AddN { fn apply(&mut self, v: u8) -> u8 { v.wrapping_add(self.0) } }
+impl Stage for XorAcc { fn apply(&mut self, v: u8) -> u8 { self.acc ^= v; self.acc } fn name_len(&self) -> u8 { 6 } }
+impl<A: Stage, B: Stage> Stage for Both<A, B> { fn apply(&mut self, v: u8) -> u8 { let m = self.0.apply(v); self.1.apply(m) } }
+impl<T: Stage + ?Sized> Stage for &mut T { fn apply(&mut self, v: u8) -> u8 { (**self).apply(v) } fn name_len(&self) -> u8 { (**self).name_len() + 100 } }
+struct Pipe<A: Stage, B: Stage> { a: A, b: B, runs: u8 }
+impl<A: Stage, B: Stage> Pipe<A, B> {
+    const fn new(a: A, b: B) -> Self { Pipe { a, b, runs: 0 } }
+    fn run(&mut self, v: u8) -> u8 { self.runs += 1; let m = self.a.apply(v); self.b.apply(m) }
+    fn names(&self) -> u8 { self.a.name_len().wrapping_mul(10).wrapping_add(self.b.name_len()) }
+    fn swap_in(&mut self, b: B) -> B { core::mem::replace(&mut self.b, b) }
+}
+pub fn d_pipe(x: u8, y: u8) -> u32 { let mut p = Pipe::new(AddN(y), XorAcc { acc: 0x0F }); let a = p.run(x); let b = p.run(x); a as u32 + b as u32 * 256 + p.names() as u32 * 65536 + p.runs as u32 * 0x100_0000 }
+pub fn d_pipe_nested(x: u8, y: u8) -> u32 { let mut p = Pipe::new(Both(AddN(1), AddN(y)), Both(XorAcc { acc: y }, AddN(3))); let a = p.run(x); let old = p.swap_in(Both(XorAcc { acc: 0 }, AddN(0))); a as u32 + p.run(a) as u32 * 256 + (old.0.acc as u32) * 65536 }
+pub fn d_pipe_ref(x: u8, y: u8) -> u32 { let mut s1 = XorAcc { acc: y }; let mut s2 = AddN(7); let r; { let mut p = Pipe::new(&mut s1, &mut s2); r = p.run(x) as u32 + p.names() as u32 * 256; } r + s1.acc as u32 * 65536 }
+fn run_dyn(s: &mut dyn Stage, v: u8) -> u8 { s.apply(v).wrapping_add(s.name_len()) }
+pub fn d_dyn_stage(x: u8, y: u8) -> u32 { let mut a = AddN(y); let mut b = XorAcc { acc: y }; let mut c = Both(AddN(1), XorAcc { acc: 2 }); let s: &mut dyn Stage = match x & 3 { 0 => &mut a, 1 => &mut b, _ => &mut c }; run_dyn(s, x) as u32 }
+pub enum AnyStage { Add(AddN), Xor(XorAcc) }
+impl Stage for AnyStage { fn apply(&mut self, v: u8) -> u8 { match self { AnyStage::Add(s) => s.apply(v), AnyStage::Xor(s) => s.apply(v) } } }
+pub fn d_enum_wrapper(x: u8, y: u8) -> u32 { let mut s = if y & 1 == 0 { AnyStage::Add(AddN(y)) } else { AnyStage::Xor(XorAcc { acc: y }) }; let mut p = Pipe::new(s.apply(0), 0u8); p.a = s.apply(x); p.a as u32 + s.name_len() as u32 * 256 }
+impl Stage for u8 { fn apply(&mut self, v: u8) -> u8 { *self = self.wrapping_add(v); *self } }
+fn twice<S: Stage>(mut s: S, v: u8) -> (u8, u8) { let a = s.apply(v); (a, s.apply(a)) }
+pub fn d_generic_by_value(x: u8, y: u8) -> u32 { let (a, b) = twice(AddN(y), x); let (c, d) = twice(y, x); let (e, _) = twice(&mut XorAcc { acc: x }, y); a as u32 | (b as u32) << 8 | ((c ^ d) as u32) << 16 | (e as u32) << 24 }
+
+// ---- fifth batch: Unicode-aware char methods on the first three 256-blocks
+fn uni_props(c: char) -> u32 { (c.is_alphabetic() as u32) | (c.is_lowercase() as u32) << 1 | (c.is_uppercase() as u32) << 2 | (c.is_numeric() as u32) << 3 | (c.is_alphanumeric() as u32) << 4 | (c.is_whitespace() as u32) << 5 | (c.is_control() as u32) << 6 }
+fn uni_case(c: char) -> u32 { let mut u = c.to_uppercase(); let mut l = c.to_lowercase(); let un = u.len() as u32; let ln = l.len() as u32; (u.next().unwrap() as u32 & 0xFFF) | (l.next().unwrap() as u32 & 0xFFF) << 12 | un << 24 | ln << 28 }
+pub fn u_props0(x: u8, _y: u8) -> u32 { uni_props(x as char) }
+pub fn u_props1(x: u8, _y: u8) -> u32 { uni_props(char::from_u32(0x100 + x as u32).unwrap()) }
+pub fn u_props2(x: u8, _y: u8) -> u32 { uni_props(char::from_u32(0x200 + (x % 0x50) as u32).unwrap()) }
+pub fn u_case0(x: u8, _y: u8) -> u32 { uni_case(x as char) }
+pub fn u_case_extra(x: u8, _y: u8) -> u32 { uni_case(if x & 1 == 0 { '€' } else { 'ˇ' }) }
+pub fn u_euro(x: u8, y: u8) -> u32 { let c = if x & 1 == 0 { '€' } else { 'ˇ' }; uni_props(c) + (y as u32 & 1) * 1000 + (c.len_utf8() as u32) * 10000 + (c.is_ascii() as u32) * 100000 }
+pub fn u_array_by_value(x: u8, y: u8) -> u32 { let mut s = 0u32; for v in [x, y, 7] { s = s * 3 + v as u32; } for (i, k) in [Key::A, Key::Up].into_iter().enumerate() { if k as u8 == x { s += 1000 * (i as u32 + 1); } } s + [x, y].into_iter().rev().map(|v| v as u32).fold(0, |a, b| a * 2 + b) * 65536 }
+pub fn u_cell(x: u8, y: u8) -> u32 { use core::cell::Cell; struct R { reg: Cell<u16>, n: u8 } let r = R { reg: Cell::new(x as u16), n: 2 }; let rr = &r; rr.reg.set(rr.reg.get() << 1 | (y as u16 & 1)); let old = rr.reg.replace(7); old as u32 + r.reg.get() as u32 * 65536 + r.n as u32 * 0x100_0000 }
